@@ -131,10 +131,22 @@ pub fn draw_cfg(rng: &mut Rng, profile: Profile, thorough: bool) -> ArrayCfg {
 /// An index for a dimension of size `dim`: valid (0..dim, or 0..=dim when `inclusive`) or,
 /// with the configured probability, invalid (dim / dim+1 / enormous).
 fn gen_index(rng: &mut Rng, dim: usize, inclusive: bool, cfg: &ArrayCfg) -> usize {
+    gen_index_x(rng, dim, 0, inclusive, cfg)
+}
+
+/// As `gen_index`; `other` is the dimension the index is multiplied by inside the crate (the
+/// width, for a row index), so that some invalid indices are chosen to make that product wrap
+/// around to a small in-range offset.
+fn gen_index_x(rng: &mut Rng, dim: usize, other: usize, inclusive: bool, cfg: &ArrayCfg) -> usize {
     let hi = if inclusive { dim + 1 } else { dim };
     if hi == 0 || rng.below(1000) < cfg.invalid_pm {
         return match rng.below(8) {
             0 => HUGE[rng.below(3)],
+            7 if other > 1 => {
+                let top: u128 = if rng.chance(1, 4) { 1 << 63 } else { 1 << 64 };
+                let q = (top + other as u128 - 1) / other as u128; // ceil(2^64 / other) or ceil(2^63 / other)
+                (q as usize).wrapping_add(rng.below(hi + 1))
+            }
             1 | 2 => hi + 1,
             _ => hi,
         };
@@ -239,7 +251,7 @@ fn gen_win(rng: &mut Rng, m: &Model, cfg: &ArrayCfg) -> Win {
 }
 
 fn gen_coord(rng: &mut Rng, m: &Model, cfg: &ArrayCfg) -> Coord {
-    (gen_index(rng, m.cols, false, cfg), gen_index(rng, m.num_rows(), false, cfg))
+    (gen_index(rng, m.cols, false, cfg), gen_index_x(rng, m.num_rows(), m.cols, false, cfg))
 }
 
 /// A shape for a constructor: mostly valid small shapes, sometimes invalid ones.
@@ -298,9 +310,9 @@ fn gen_mut_op(rng: &mut Rng, fam: usize, m: &Model, cfg: &ArrayCfg) -> MutOp {
         F_FILL => MutOp::Fill,
         F_SWAP => match rng.below(4) {
             0 => MutOp::Swap { a: gen_coord(rng, m, cfg), b: gen_coord(rng, m, cfg) },
-            1 => MutOp::SwapRows { r1: gen_index(rng, r, false, cfg), r2: gen_index(rng, r, false, cfg) },
+            1 => MutOp::SwapRows { r1: gen_index_x(rng, r, c, false, cfg), r2: gen_index_x(rng, r, c, false, cfg) },
             2 => MutOp::SwapCols { c1: gen_index(rng, c, false, cfg), c2: gen_index(rng, c, false, cfg) },
-            _ => MutOp::RowPairSwap { r1: gen_index(rng, r, false, cfg), r2: gen_index(rng, r, false, cfg) },
+            _ => MutOp::RowPairSwap { r1: gen_index_x(rng, r, c, false, cfg), r2: gen_index_x(rng, r, c, false, cfg) },
         },
         F_CLONE_FROM => {
             if rng.chance(1, 2) {
@@ -322,7 +334,7 @@ fn gen_mut_op(rng: &mut Rng, fam: usize, m: &Model, cfg: &ArrayCfg) -> MutOp {
             // F_SORT
             let variant = ALL_SORTS[rng.below(ALL_SORTS.len())];
             let dim = if variant.by_row() { r } else { c };
-            let idx = gen_index(rng, dim, false, cfg);
+            let idx = gen_index_x(rng, dim, if variant.by_row() { c } else { r }, false, cfg);
             let m_ = *[1u32, 2, 3, 5, 1 << 30].get(rng.below(5)).unwrap();
             let lawless = cfg.profile == Profile::C11 && !variant.natural() && !variant.keyed() && rng.chance(1, 6);
             MutOp::Sort { variant, idx, m: m_, desc: rng.chance(1, 3), lawless }
@@ -463,7 +475,13 @@ pub fn gen_step(rng: &mut Rng, m: &Model, cfg: &ArrayCfg, cap_is_exact: bool) ->
                     Op::CloneFrom { c, r, extra_cap: *[0usize, 0, 3].get(rng.below(3)).unwrap() }
                 }
             }
-            3 => Op::FromView { win: gen_win(rng, m, cfg), mutable: rng.chance(1, 2) },
+            3 => {
+                let win = gen_win(rng, m, cfg);
+                let mutable = rng.chance(1, 2);
+                let via_into = rng.chance(1, 3);
+                let inner = if rng.chance(1, 3) && m.win_ok(win) && !m.win_is_n1(win) { Some(gen_win(rng, &m.sub(win), cfg)) } else { None };
+                Op::FromView { win, mutable, via_into, inner }
+            }
             4 | 5 => {
                 let (c, r) = gen_dims(rng, cfg);
                 Op::New { c, r }
@@ -482,20 +500,20 @@ pub fn gen_step(rng: &mut Rng, m: &Model, cfg: &ArrayCfg, cap_is_exact: bool) ->
         F_INSERT_ROW => {
             let len = gen_len(rng, c, r == 0, cfg);
             let lie = gen_lie(rng, cfg);
-            if rng.chance(1, 4) { Op::PushRow { len, lie } } else { Op::InsertRow { idx: gen_index(rng, r, true, cfg), len, lie } }
+            if rng.chance(1, 4) { Op::PushRow { len, lie } } else { Op::InsertRow { idx: gen_index_x(rng, r, c, true, cfg), len, lie } }
         }
         F_INSERT_COL => {
             let len = gen_len(rng, r, c == 0, cfg);
             let lie = gen_lie(rng, cfg);
-            if rng.chance(1, 4) { Op::PushCol { len, lie } } else { Op::InsertCol { idx: gen_index(rng, c, true, cfg), len, lie } }
+            if rng.chance(1, 4) { Op::PushCol { len, lie } } else { Op::InsertCol { idx: gen_index_x(rng, c, r, true, cfg), len, lie } }
         }
         F_REMOVE_ROW => {
             let script = gen_script(rng, c, leak_scripts);
-            if rng.chance(1, 4) { Op::PopRow { script } } else { Op::RemoveRow { idx: gen_index(rng, r, false, cfg), script } }
+            if rng.chance(1, 4) { Op::PopRow { script } } else { Op::RemoveRow { idx: gen_index_x(rng, r, c, false, cfg), script } }
         }
         F_REMOVE_COL => {
             let script = gen_script(rng, r, leak_scripts);
-            if rng.chance(1, 4) { Op::PopCol { script } } else { Op::RemoveCol { idx: gen_index(rng, c, false, cfg), script } }
+            if rng.chance(1, 4) { Op::PopCol { script } } else { Op::RemoveCol { idx: gen_index_x(rng, c, r, false, cfg), script } }
         }
         F_CLEAR => Op::Clear,
         F_SWAP_DIMS => Op::SwapDimensions,
